@@ -40,7 +40,7 @@ func main() {
 	emit := func(m ev.M) { m["id"] = id; id++; w.Emit(m) }
 	thorough := *tier == "thorough"
 
-	if *which == "ident" || *which == "all" {
+	if *which == "ident" || *which == "all" || *which == "convert" {
 		// C11: per MCC a row of MNCs: SUCI of a random MSIN, PLMN for NG Setup (octets 1..3 of the SUCI) and the library's PlmnIDToNas
 		var mncs []string
 		for i := 0; i < 100; i++ {
@@ -50,6 +50,9 @@ func main() {
 			mncs = append(mncs, fmt.Sprintf("%03d", i))
 		}
 		for mcc := 0; mcc < 1000; mcc++ {
+			if *which == "convert" && mcc%331 != 7 {
+				continue // C17 takes three complete rows of the PLMN conversion (all 1100 MNCs); C11 owns the full table
+			}
 			mccS := fmt.Sprintf("%03d", mcc)
 			row := mncs
 			if !thorough && mcc%331 != 7 {
@@ -85,6 +88,9 @@ func main() {
 		n := 40
 		if thorough {
 			n = 400
+		}
+		if *which == "convert" {
+			n = 0
 		}
 		for i := 0; i < n; i++ {
 			mccS, mnc := digits(r, 3), digits(r, 2+r.Intn(2))
